@@ -110,6 +110,10 @@ theorem freer_arg {pc : PC} {n : NoteId} (h : pc.freer = some n) : pc.arg = some
   · rfl
   · unfold childLoopStartPc; split <;> rfl
 
+@[simp] theorem freer_childLoopStartPc (cs : List NoteId) (f : Frame) (rest : List Frame)
+    (top : Top) : (Note.childLoopStartPc cs f rest top).freer = none := by
+  cases cs <;> rfl
+
 @[simp] theorem freer_freeLoopStartPc (cs : List NoteId) (n : NoteId) (par : Option NoteId) :
     (Note.freeLoopStartPc cs n par).freer = some n := by
   cases cs <;> rfl
@@ -134,9 +138,10 @@ theorem step_arg {s s' : State} {e : Event} (hs : step s e = .ok s') (a : Tid)
   all_goals (try subst ha)
   all_goals (try (left; exact ⟨rfl, rfl, rfl⟩))
   all_goals (try (simp only [setPc_pc, upd_same, afterDeadline_pc, afterNotify_pc, childReturn_pc,
-    childWakeNext_pc, freeLoopStart_pc, enterChild_pc, leave_pc, addUser_pc, markCalled_pc,
+    childWakeNext_pc, childScanStart_pc, freeLoopStart_pc, enterChild_pc, leave_pc, addUser_pc, markCalled_pc,
     markFreeing_pc, setAfter_pc, pushObs_pc, publish_pc, delUser_pc, arg_afterDeadlinePc,
-    arg_afterNotifyPc, arg_childReturnPc, arg_childWakeNextPc, arg_freeLoopStartPc,
+    arg_afterNotifyPc, arg_childReturnPc, arg_childWakeNextPc, arg_childLoopStartPc,
+    freer_childLoopStartPc, arg_freeLoopStartPc,
     freer_afterDeadlinePc, freer_afterNotifyPc, freer_childReturnPc, freer_childWakeNextPc,
     freer_freeLoopStartPc]))
   all_goals (try (left; simp [*, PC.arg, DK.arg, NK.arg, PC.freer]; done))
@@ -198,10 +203,10 @@ theorem step_freer {s s' : State} {e : Event} (hs : step s e = .ok s') (a : Tid)
   all_goals (try subst ha)
   all_goals (try (left; rfl))
   all_goals (try (simp only [setPc_pc, upd_same, afterDeadline_pc, afterNotify_pc, childReturn_pc,
-    childWakeNext_pc, freeLoopStart_pc, enterChild_pc, leave_pc, addUser_pc, markCalled_pc,
+    childWakeNext_pc, childScanStart_pc, freeLoopStart_pc, enterChild_pc, leave_pc, addUser_pc, markCalled_pc,
     markFreeing_pc, setAfter_pc, pushObs_pc, publish_pc, delUser_pc,
     freer_afterDeadlinePc, freer_afterNotifyPc, freer_childReturnPc, freer_childWakeNextPc,
-    freer_freeLoopStartPc]))
+    freer_freeLoopStartPc, freer_childLoopStartPc]))
   all_goals (try (left; simp [*, PC.freer]; done))
   all_goals (try (right; left; simp [PC.freer]; done))
   all_goals (try (right; left; rfl))
